@@ -3,7 +3,7 @@ setters, zck_validate_lead, zck_read_lead/zck_read_header; hex_to_int exhaustive
 import vlib, hdrgen, zckfmt
 
 THEOREMS = ["C07_hex_complete", "C07_digest_option_iff", "C07_digest_needs_type", "C07_type_frozen_after_digest",
-            "C07_lead_accepts_iff_pins_match", "C07_pinned_open_authenticates"]
+            "C07_lead_accepts_iff_pins_match", "C07_pinned_open_authenticates", "C07_pin_sticky", "C07_pin_survives"]
 ASSUMPTIONS = [
     "models Format/Pins.v and Format/ParseImpl.v are hand transcriptions of zck.c / header.c, tied by differential execution",
     "characters are signed 8-bit (x86-64 char); hash H is a parameter, collisions are exhibited not excluded",
@@ -58,6 +58,39 @@ def gen(rng, tier):
                             lines.append(P(["d" + d.hex(), "t%d" % pt, "s%d" % sz], v, f))   # digest before type: refused
                             lines.append(P(["t%d" % pt, "d" + d.hex(), "t%d" % ht], v, f))   # type change after digest
         lines.append(P(["t-1"], "-", f)); lines.append(P(["s-1"], "-", f)); lines.append(P(["s%d" % total], "V", f))
+    # one byte off at every position of the pin (a comparison that stops early, e.g. at a 0x00 byte, accepts some of
+    # them): for the bases and for files whose header digest has a 0x00 byte in front of other bytes
+    zero_bases = []
+    for ht in (0, 1, 2, 3):
+        for _ in range(600):
+            h = zckfmt.Hdr(ht=ht, cht=1, chunks=hdrgen.mk_chunks(rng, 2, 1, False))
+            f = h.build() + b"xyz"
+            l = zckfmt.parse_lead(f)
+            dg = f[l["dloc"]:l["lead"]]
+            if 0 in dg[:-1] and dg.index(0) < len(dg) - 1:
+                zero_bases.append((ht, f, dg, l["lead"] + l["hlen"]))
+                break
+    for ht, f, dg, total in bases + zero_bases:
+        for j in range(len(dg)):
+            d2 = bytearray(dg); d2[j] ^= rng.choice([1, 0x80, 0xff])
+            lines.append(P(["t%d" % ht, "d" + hexstr(bytes(d2)).hex()], "V" if j % 2 else "-", f))
+        lines.append(P(["t%d" % ht, "d" + hexstr(dg).hex()], "V", f))
+    # an accepted pin followed by refused calls and zck_clear_error: the pin must still hold (or the context be dead),
+    # on the pinned file A and on another file B of the same hash type
+    for ht, fa, dga, ta in bases:
+        hb = zckfmt.Hdr(ht=ht, cht=1, chunks=hdrgen.mk_chunks(rng, 3, 1, False))
+        fb = hb.build() + b"B"
+        good = hexstr(dga)
+        nonhex = bytearray(good); nonhex[rng.randrange(len(good))] = ord("g")
+        nonhex_lo = bytearray(good); nonhex_lo[1] = ord("?")
+        tails = [["d" + bytes(nonhex).hex(), "e"], ["d" + bytes(nonhex_lo).hex(), "e"], ["d" + good[:-1].hex(), "e"], ["d" + (good + b"0").hex(), "e"],
+                 ["s-1", "e"], ["t-1", "e"], ["t%d" % ((ht + 1) % 4), "e"], ["e"], ["e", "d" + bytes(nonhex).hex(), "e", "s%d" % ta],
+                 ["s-1", "e", "d" + bytes(nonhex).hex(), "e", "e"], ["d" + bytes(nonhex).hex(), "e", "d" + good.hex()],
+                 ["s-1", "e", "d" + good.upper().hex()], ["s-1", "d" + bytes(nonhex).hex(), "e"]]
+        for tl in tails:
+            for f in (fa, fb):
+                for v in ("V", "-"):
+                    lines.append(P(["t%d" % ht, "d" + good.hex()] + tl, v, f))
     # random digests strings made of arbitrary bytes
     for _ in range(300 if tier == "quick" else 5000):
         ht, f, dg, total = rng.choice(bases)
@@ -80,7 +113,8 @@ def run(res, tier, only_case=None):
     rng = vlib.Rng(vlib.seed())
     res.rule = ("hex_to_int on all 256 char values (exhaustive); digest strings with every byte value at first/odd/last position for the 4 "
                 "hash types; full (pinned,actual) matrix of type x digest(equal, one bit off first/last byte) x length(equal,+-1), both orders of "
-                "setting options, digest-before-type and type-after-digest, with and without zck_validate_lead before the open; non-trivial = every "
+                "setting options, digest-before-type and type-after-digest, with and without zck_validate_lead before the open; pins one byte off at every position, also for files whose header digest contains 0x00; "
+                "an accepted pin followed by refused calls (non-hex, wrong length, negative values, type change) and zck_clear_error, on the pinned and on another file; non-trivial = every "
                 "distinct case except the 256-value sweep duplicates")
     lines = [only_case["case"]["line"]] if only_case is not None else gen(rng, tier)
     model = vlib.ensure_model("C07")
@@ -129,6 +163,23 @@ def run(res, tier, only_case=None):
                     continue
                 if v == "V" and (" val=1" in i) != match:
                     res.violation("oracle", key, "zck_validate_lead verdict %s differs from the pin comparison (%s)" % (i, match), case)
+                    continue
+        # oracle for every sequence: the last digest option that returned true is the pin; a file with another header
+        # digest (or hash type) must not get through, whatever was called afterwards
+        if i.startswith("set=") and lead and len(fields.get("set", "")) == len(oplist):
+            last = None
+            cur_t = None
+            for o, r in zip(oplist, fields["set"]):
+                if o[0] == "t" and r == "1":
+                    cur_t = int(o[1:])
+                if o[0] == "d" and r == "1":
+                    last = (cur_t, py_unhex(vlib.unhex(o[1:])))
+            if last is not None and last[1] is not None:
+                match = (last[0] == lead["ht"] and last[1] == f[lead["dloc"]:lead["lead"]])
+                if not match and (" open=OK" in i or " val=1" in i):
+                    res.violation("oracle", key, "digest %s.. (type %s) was accepted as pin, later calls [%s] returned %s, and a file with header digest %s.. "
+                                  "(type %d) still gets through: %s" % (last[1].hex()[:16], last[0], ",".join(o[:12] for o in oplist), fields["set"],
+                                                                       f[lead["dloc"]:lead["lead"]].hex()[:16], lead["ht"], i[:80]), case)
                     continue
         if i != mres:
             res.violation("correspondence", key.replace("c07:", "c07-corr:"), "pin model and library disagree: model %s, code %s" % (mres[:200], i[:200]), case)
